@@ -597,7 +597,9 @@ class ChainedRunner(Iterable[_ValueT]):
 
   def update_state(self, state: _AggState, inputs: Any) -> _AggState | None:
     """Updates the state by inputs."""
-    next(it := self.iterate([inputs], state=state))
+    # The operators may emit no batch (filter) or several batches (re-batching)
+    # for one input: exhaust the iterator instead of taking its first element.
+    mit.last(it := self.iterate([inputs], state=state), None)
     return it.agg_state
 
   def merge_states(
